@@ -224,7 +224,7 @@ def scan_source(t, part):
 
 def _work(shard):
     tier = _STATE['tier']
-    hints = _STATE['hints'][shard::NSHARDS]
+    hints = _STATE['shards'][shard]
     confs = _STATE['confs']
     res = _STATE['res']
     seed = _STATE['seed']
@@ -249,9 +249,10 @@ def run(ctx):
     _STATE.update(tier=ctx.tier, seed=ctx.seed, hints=HE.hints(ctx.tier),
                   confs={'default': allc['default'], 'nonrandom': allc['nonrandom']},
                   res=drive.residues(3, ctx.tier))
+    _STATE['shards'] = HE.shards(_STATE['hints'], NSHARDS)
     _STATE['scan'] = [t for t in _STATE['hints'] if HS.has_sampling(t)][:: (7 if ctx.quick else 2)]
     tot = {}
-    for part in ctx.pmap(_work, range(NSHARDS)):
+    for part in ctx.pmap(_work, range(NSHARDS), fresh=True):
         for k, v in part['cover'].items():
             tot[k] = tot.get(k, 0) + v
         for v in part['violations']:
